@@ -183,36 +183,53 @@ def constructs(src):
     return out
 
 
-def root_cause(src, fname, arrays, extra_kwargs=None, globs=None):
-    """Which construct explains a silent difference?  (repair substitution)"""
-    present = constructs(src)
-    for what in ("augassign-no-else", "literal-reduction", "augassign-alias"):
-        if what not in present:
-            continue
-        tree = ast.parse(textwrap.dedent(src))
-        # drop decorators: the repaired clone must not register itself anywhere
-        for node in ast.walk(tree):
-            if isinstance(node, ast.FunctionDef):
-                node.decorator_list = []
+ORDER = ("augassign-no-else", "literal-reduction", "augassign-alias")
+
+
+def _repaired_agrees(src, fname, arrays, subset, extra_kwargs, globs):
+    tree = ast.parse(textwrap.dedent(src))
+    # drop decorators: the repaired clone must not register itself anywhere
+    for node in ast.walk(tree):
+        if isinstance(node, ast.FunctionDef):
+            node.decorator_list = []
+    hit = False
+    for what in subset:
         rep = _Repair(what)
         tree = ast.fix_missing_locations(rep.visit(tree))
-        if not rep.hit:
-            continue
-        new_src = ast.unparse(tree)
-        _counter[0] += 1
-        filename = f"<vf-c09-repair-{_counter[0]}>"
-        ns = dict(globs or {})
-        ns["__name__"] = "vf_generated"
-        try:
-            exec(compile(new_src, filename, "exec"), ns)  # noqa: S102
-            linecache.cache[filename] = (len(new_src), None, new_src.splitlines(True), filename)
-            status, *_ = run_both(ns[fname], arrays, extra_kwargs)
-        except Exception:  # noqa: BLE001
-            continue
-        if status != "differ":
-            return what
-    if {"augassign-no-else", "literal-reduction"} <= present:
-        return "augassign-no-else+literal-reduction"
+        hit = hit or rep.hit
+    if not hit:
+        return False
+    new_src = ast.unparse(tree)
+    _counter[0] += 1
+    filename = f"<vf-c09-repair-{_counter[0]}>"
+    ns = dict(globs or {})
+    ns["__name__"] = "vf_generated"
+    try:
+        exec(compile(new_src, filename, "exec"), ns)  # noqa: S102
+        linecache.cache[filename] = (len(new_src), None, new_src.splitlines(True), filename)
+        status, *_ = run_both(ns[fname], arrays, extra_kwargs)
+    except Exception:  # noqa: BLE001
+        return False
+    return status != "differ"
+
+
+def root_cause(src, fname, arrays, extra_kwargs=None, globs=None):
+    """Which construct(s) explain a silent difference?  (repair substitution)
+
+    The smallest set of constructs whose replacement by the obviously equivalent scalar form makes the
+    difference disappear; a set of two or three is written "a+b".  A set made only of constructs that are
+    recorded known findings is attributed to its first member (findings are counted by root cause)."""
+    import itertools
+
+    present = [w for w in ORDER if w in constructs(src)]
+    for k in range(1, len(present) + 1):
+        for subset in itertools.combinations(present, k):
+            if _repaired_agrees(src, fname, arrays, subset, extra_kwargs, globs):
+                if k > 1:
+                    known = core.load_known(PROP)
+                    if all(f"construct:{w}" in known for w in subset):
+                        return subset[0]
+                return "+".join(subset)
     return "other"
 
 
